@@ -110,6 +110,7 @@ def known_k1(ctx):
 def run(ctx):
     games = sc.standard_games(ctx, 150 if ctx.quick else 2500, 3, 9) + tie_grids(ctx)
     games += gen_games.mixed_games(ctx.rng, 60 if ctx.quick else 1000, 4, 9, styles=("ties",))
+    games += gen_games.chain_tie_games()
     games += gen_games.extra_families(ctx.rng, games, 12 if ctx.quick else 150)
     recs = sc.run_games(ctx, games, limit=10, tag="c04")
     sc.correspondence(ctx, recs, "cmp_reachs", "c04")
